@@ -44,7 +44,7 @@ OPS = {"gA": ["A"], "gAB": ["A", "B"], "gABC": ["A", "B", "C"], "reopen": None,
        "gABA": ["A", "B", "A"]}
 FAULTS = ["notfound", "raise-before", "raise-half", "postprocess", "validation", "validation+notfound",
           "validation-after-accept"]
-MAXLEN = {"quick": 2, "thorough": 3}
+MAXLEN = {"quick": 2, "thorough": 4}
 ALL = ["A", "B", "C"]
 LIMIT = 10 ** 6
 PP_MARK = b"#post-processed"
